@@ -419,7 +419,18 @@ def judge(case, obs):
 
 
 def aoh_default(case, obs):
-    return c05.aoh_default_governs_non_aoh(case6(case), obs)
+    """F-C05-1 met through C10's data clause: on the documents as written, or on the pair the
+    anchor policy hands to the merge proper (left / right replace anchored KEYS too, which can
+    make a key common to both Hashes: `{&x k1: 2}` + `{&x k2: [..]}` under anchors=right)"""
+    if c05.aoh_default_governs_non_aoh(case6(case), obs):
+        return True
+    if c05._aoh_default(case6(case)) not in ("left", "right"):
+        return False
+    try:
+        l, r = real_resolve(case)
+    except Exception:  # noqa
+        return False
+    return c05.aoh_governs_docs(case6(case), l, r)
 
 
 def anchored_container_as_array_element(case, obs):
@@ -436,7 +447,30 @@ def anchored_container_as_array_element(case, obs):
     return found(load(case[0])) or found(load(case[1]))
 
 
+def count_entries(x):
+    if isinstance(x, dict):
+        return len(x) + sum(count_entries(v) for v in x.values())
+    if isinstance(x, (list, tuple)):
+        return sum(count_entries(e) for e in x)
+    return 0
+
+
+def anchored_key_collision(case, obs):
+    """F-C10-2: left / right (and equal anchors) replace anchored hash KEYS too; when two keys of one
+    Hash carry anchors whose replacements are equal (`{&z k1: .., &x k2: ..}` with `&x v`, `&z v` on the
+    other side), Anchors.replace_anchor re-inserts the second under a key that exists: one entry of the
+    Hash is silently lost (cf. C03 F24).  Recognised on the pair the real _resolve_anchor_conflicts
+    produces: it holds fewer hash entries than the documents as loaded."""
+    try:
+        before = count_entries(load(case[0])) + count_entries(load(case[1]))
+        l, r = real_resolve(case)
+    except Exception:  # noqa
+        return False
+    return count_entries(l) + count_entries(r) < before
+
+
 FINDING_PREDS = {"aoh_default_governs_non_aoh": aoh_default,
+                 "anchored_key_collision": anchored_key_collision,
                  "anchored_container_as_array_element": anchored_container_as_array_element}
 
 
